@@ -146,6 +146,12 @@ def run_case(case, root):
         if not use_dict:
             for k, v in environ.items():
                 setenv(k, v)
+        else:
+            # an explicit mapping replaces the process environment completely: fill os.environ with decoy values
+            # for every declared key so that any fall-back to os.environ (e.g. for an empty mapping) shows
+            decoy = {"scalar": 424242, "list": [424242], "dict": {"zz": 424242}}
+            for d in decls:
+                setenv(env_name(prefix, d["key"]), scalar_text(decoy[d["kind"]]))
 
         if entry["kind"] == "args":
             argv = []
